@@ -36,7 +36,7 @@ CLASS_OF = {"2": "Code2", "3": "Code3", "4": "Code4"}
 NEEDS = {
     "C01": ["3"], "C02": ["4"], "C03": ["2"], "C04": ["2", "3", "4"], "C05": ["2", "3", "4"],
     "C06": ["2", "3", "4"], "C07": ["2", "3", "4"], "C09": ["2", "3", "4"], "C10": ["2", "3", "4"], "C11": ["2", "3", "4"],
-    "C14": ["2", "3", "4"], "C15": ["2", "3"],
+    "C08": ["2", "3", "4"], "C12": ["2", "3", "4"], "C14": ["2", "3", "4"], "C15": ["2", "3"],
 }
 V4_KEYS = ["AV", "AC", "AT", "PR", "UI", "VC", "VI", "VA", "SC", "SI", "SA", "CR", "IR", "AR", "E", "MSI", "MSA", "MAV", "S", "U"]
 
@@ -316,6 +316,44 @@ def validate_translation(pid, tie, seed, scale=1):
                 else:
                     n_ok += 1
             r["constructor_outcomes"] = kinds
+        if "from_rh_vector" in r.get("translated", []) and "rh_vector" in r.get("translated", []):
+            # Red Hat notation: from_rh_vector on right / wrong / oddly spelled scores and on malformed texts, rh_vector of the result
+            im = core.impl()
+            rh = []
+            for s_ in items[: 700 * scale]:
+                try:
+                    o = im.cls[v](s_)
+                    b = o.scores()[0]
+                except Exception:  # noqa
+                    continue
+                t = int(round(b * 10))
+                rh += ["%d.%d/%s" % (t // 10, t % 10, s_), "%d.%d/%s" % ((t + 1) // 10, (t + 1) % 10, s_), rng.choice(
+                    ["%d.%d0/%s", " %d.%d /%s", "+%d.%d/%s", "%d%de-1/%s", "%d.%d/ %s", "%d.%d|%s", "%d.%d/%s/", "%d.%d//%s"]) % (
+                    t // 10, t % 10, s_)]
+            rh += ["", "/", "7.5", "nan/" + items[0], "inf/" + items[0], "1e400/" + items[0], "x/" + items[0], "/" + items[0],
+                   "7.5/", "1_0.0/" + items[0], "0x1p3/" + items[0], "٧.٥/" + items[0]]
+            rh = [x for x in rh if core.sendable(x) and all(ord(c) < 128 for c in x.split("/", 1)[0])]
+            try:
+                gotr = _run_codedriver(["R%s\t%s" % (v, core.enc(x)) for x in rh])
+            except Exception as e:  # noqa
+                gotr, rh = [], []
+                r["validation_note"] = str(e)[:300]
+            for x, g in zip(rh, gotr):
+                try:
+                    o = im.cls[v].from_rh_vector(x)
+                    from decimal import Decimal
+                    w = "ok\t%s\t%s" % (_frac(Decimal(repr(float(o.scores()[0])))), o.rh_vector())
+                except Exception as e:  # noqa
+                    n = type(e).__name__
+                    if isinstance(e, im.CVSSError) and n.startswith("CVSS" + v):
+                        n = n[5:]
+                    w = "err\t" + n
+                n_k += 1
+                if g != w:
+                    if len(diffs) < 5:
+                        diffs.append({"input": x, "translated_source": g[:300], "real_code": w[:300], "op": "from_rh_vector"})
+                else:
+                    n_ok += 1
         if v == "4" and "as_json" in r.get("translated", []):
             # compute_severity / as_json as translated, on the object the real code scored
             im = core.impl()
